@@ -3,7 +3,7 @@ called through c03.py).  Theorems: coq/Properties/C01.v, C03.v over Model/Engine
 Tie: whole worlds through the real `sy` binary (-j1, --json, hook-scaled delta gate) vs Engine.run of
 the extracted model: refusal, exit status, error count, event sequence, final destination snapshot.
 Oracle: the statement itself evaluated on the implementation's before/after snapshots."""
-import json, os
+import json, os, shutil
 import vlib, world, engine_world as ew
 from common import proof_phase, TRUSTED_COMMON
 
@@ -175,6 +175,19 @@ def generic(pid, tier, seed, runs, oracle_fn, extra_worlds=None):
                 bname, bf = biglinks.run_variant(sc, seed + 31 * vi, vi)
                 want = "re-run" if pid == "C03" else None
                 big_fails += [{"world": "biglinks-%d" % vi, "variant": bname, "why": x} for x in bf if (pid == "C01" and "re-run" not in x) or (pid == "C03")]
+        if pid == "C03":
+            # (7d249a9) symbolic links under each link mode and comparison mode: the immediate re-run reports nothing created or updated
+            for li, (lmode, cmp_) in enumerate([(m_, c_) for m_ in ("follow", "preserve", "skip") for c_ in ([], ["--checksum"], ["--size-only"])]):
+                lb = os.path.join(sc.dir, "lnkrr%d" % li)
+                os.makedirs(lb + "/src/sub"); os.makedirs(lb + "/dst")
+                open(lb + "/src/t.txt", "w").write("referent")
+                os.symlink("t.txt", lb + "/src/l_file"); os.symlink("nowhere", lb + "/src/l_dangling"); os.symlink("sub", lb + "/src/l_dir")
+                world.run_sy([lb + "/src", lb + "/dst", "--links", lmode, "-q"] + cmp_, sc)
+                r2_ = world.run_sy([lb + "/src", lb + "/dst", "--links", lmode, "--json"] + cmp_, sc)
+                sm_ = [json.loads(l) for l in r2_["out"].split("\n") if l.startswith("{") and '"summary"' in l]
+                if sm_ and (sm_[0]["files_created"], sm_[0]["files_updated"], sm_[0]["bytes_transferred"]) != (0, 0, 0):
+                    big_fails.append({"world": "link-rerun-%s%s" % (lmode, "".join(cmp_)), "why": "--links %s %s: the immediate re-run reports created=%d updated=%d bytes=%d" % (lmode, " ".join(cmp_), sm_[0]["files_created"], sm_[0]["files_updated"], sm_[0]["bytes_transferred"])})
+                shutil.rmtree(lb, ignore_errors=True)
     model = [ew.model_obs(m) for m in vlib.run_model(cases)]
     diffs, viol, hits, nontriv = [], [], {}, set()
     viol += big_fails
